@@ -22,7 +22,10 @@ P=$(echo "$OUT" | grep -E "^test result" | sed -E 's/.* ([0-9]+) passed.*/\1/' |
 Fd=$(echo "$OUT" | grep -E "^test result" | sed -E 's/.* ([0-9]+) failed.*/\1/' | paste -sd+ | bc)
 if echo "$OUT" | grep -q "^error"; then res name "$NAME" ok false why "does not compile" > "$SRC/verified.json"; exit 1; fi
 cp "$SRC/demo.rs" "tests/demo_$NAME.rs"
-WITH=$(CARGO_NET_OFFLINE=true cargo test --offline --test "demo_$NAME" 2>&1 | grep -E "^test result" | tail -1)
+WITH_OUT=$(CARGO_NET_OFFLINE=true cargo test --offline --test "demo_$NAME" 2>&1); WITH_RC=$?
+WITH=$(echo "$WITH_OUT" | grep -E "^test result" | tail -1)
+# a demo that takes the whole test process down (stack overflow, abort) prints no result line
+if [ -z "$WITH" ] && [ "$WITH_RC" != "0" ] && echo "$WITH_OUT" | grep -qE "overflowed its stack|SIGABRT|SIGSEGV|process didn't exit successfully"; then WITH="test result: FAILED. (test process aborted: $(echo "$WITH_OUT" | grep -oE "overflowed its stack|SIGABRT|SIGSEGV" | head -1))"; fi
 git apply -R "$SRC/patch.diff"
 WITHOUT=$(CARGO_NET_OFFLINE=true cargo test --offline --test "demo_$NAME" 2>&1 | grep -E "^test result" | tail -1)
 OK=false
